@@ -39,6 +39,8 @@ def run(ctx):
     o3_o4(ctx, rt)
     o5_o6(ctx, rt)
     o7(ctx)
+    from .common import settings_wiring
+    settings_wiring(ctx, "O4/T5-settings-wiring", SR)
     ctx.trust("jax.lax.custom_root(f, x0, solve, tangent_solve) differentiates the root implicitly with tangent_solve(g, y) = y / g(1) for scalar g")
 
 
@@ -275,6 +277,7 @@ def variants(repo):
     from optilint.selftest import Variant, sub, sub_in_func, alpha_rename, reformat
     S = "optimism/ScalarRootFind.py"
     return [
+        Variant("settings tolerances swapped", "optimism/ScalarRootFind.py", sub("    return Settings(max_iters, x_tol, r_tol)", "    return Settings(max_iters, r_tol, x_tol)"), "O4/T5-settings-wiring"),
         Variant("NaN seeding after overrides", S,
                 lambda s: None if s.count("    x0 = np.where(fl*fh < 0.0,\n                  x0,\n                  np.nan)\n") != 1 else
                 s.replace("    x0 = np.where(fl*fh < 0.0,\n                  x0,\n                  np.nan)\n", "")
